@@ -13,14 +13,18 @@ Variable rank : qkey -> nat.
 Hypothesis Hrank : calls_below prog rank.
 Variable NF : nat.
 Hypothesis Hbound : forall q, (rank q < NF)%nat.
+Variable fm : bool.
 Notation E := (E prog NF).
 Notation tr := (tr prog NF).
 Notation envat := (envat prog NF).
 Notation durge := (durge prog NF).
 Notation clos := (clos prog NF).
-Notation dmemo_ok := (dmemo_ok prog NF).
-Notation DInv := (DInv prog NF).
+Notation dmemo_ok := (dmemo_ok prog NF fm).
+Notation DInv := (DInv prog NF fm).
 Notation obs_pre := (obs_pre prog NF).
+Notation obs_ok := (obs_ok prog NF).
+Notation good := (good prog NF fm).
+Notation dext := (dext prog NF).
 
 Ltac conj := repeat match goal with |- _ /\ _ => split end.
 
@@ -31,10 +35,10 @@ Lemma obs_of_callee H D s d1 md1 d md :
   E H (cur s) d = E H (m_verified md) d /\ m_dur md1 <= m_dur md.
 Proof.
   intros HI Hm1 Hv1 Hc Hmd.
-  pose proof (inv_memo _ _ _ _ _ HI d1 md1 Hm1) as Hok1.
+  pose proof (inv_memo _ _ _ _ _ _ HI d1 md1 Hm1) as Hok1.
   rewrite <- Hv1 in Hc. rewrite <- Hv1.
-  apply (mo_obs _ _ _ _ _ _ _ Hok1 d md Hc Hmd).
-  left. pose proof (mo_order _ _ _ _ _ _ _ (inv_memo _ _ _ _ _ HI d md Hmd)) as (_ & A & B).
+  apply (mo_obs _ _ _ _ _ _ _ _ Hok1 d md Hc Hmd).
+  left. pose proof (mo_order _ _ _ _ _ _ _ _ (inv_memo _ _ _ _ _ _ HI d md Hmd)) as (_ & A & B).
   rewrite Hv1. lia.
 Qed.
 
@@ -45,7 +49,49 @@ Lemma never_now H D s a d :
 Proof.
   intros HI Ha Hle Hd.
   apply (durge_stable prog rank Hrank NF Hbound H D 3 a (cur s) d (cur s));
-    [lia | apply (stable_never prog NF H D s a HI Ha) | exact Hd | exact Hle | lia].
+    [lia | apply (stable_never prog NF fm H D s a HI Ha) | exact Hd | exact Hle | lia].
+Qed.
+
+(* two revisions that answer the reads of q at a alike give the same run *)
+Lemma same_run H a w q :
+  agree_on (envat H a) (envat H w) (tr H a q) -> tr H w q = tr H a q /\ E H w q = E H a q.
+Proof.
+  intros Hag. destruct (trace_determined (prog q) _ _ Hag) as [Htr Hrun].
+  split; [exact Htr | rewrite !(E_unfold prog rank Hrank NF Hbound); exact Hrun].
+Qed.
+
+(* ... and it is enough to look at the reads that both runs perform *)
+Lemma same_run_common H a w q :
+  (forall x, In x (tr H a q) -> In x (tr H w q) -> answer (envat H a) x = answer (envat H w) x) ->
+  tr H w q = tr H a q /\ E H w q = E H a q.
+Proof.
+  intros Hc. apply same_run.
+  destruct (first_changed_is_read_again (prog q) (envat H a) (envat H w))
+    as [Hag | (pre & x & post & Ht & _ & Hnea & post' & Ht')]; [exact Hag|].
+  exfalso. apply Hnea. apply Hc.
+  - unfold tr, Inv.tr. rewrite Ht. apply in_or_app; right; left; reflexivity.
+  - unfold tr, Inv.tr. rewrite Ht'. apply in_or_app; right; left; reflexivity.
+Qed.
+
+(* flat mode: a query of level >= 1 reads no input at all; it is the same at every revision *)
+Lemma low_never H D a k : (forall r i, D r i = 0) -> 1 <= k ->
+  forall n d, (rank d < n)%nat -> durge H D a k d ->
+  forall w, tr H w d = tr H a d /\ E H w d = E H a d /\ durge H D w 3 d.
+Proof.
+  intros HD Hk. induction n as [|n IH]; intros d Hn Hd w; [inversion Hn|].
+  assert (Hag : agree_on (envat H a) (envat H w) (tr H a d)).
+  { intros x Hx. destruct x as [i | d' | c |]; cbn.
+    - pose proof (durge_in _ _ _ _ _ _ _ _ Hd Hx) as Hle. rewrite HD in Hle. lia.
+    - symmetry. apply (IH d'); [|eapply durge_q; eassumption].
+      pose proof (tr_calls prog rank Hrank NF H _ _ _ Hx). lia.
+    - assert (k = 0); [|lia]. apply (durge_untr _ _ _ _ _ _ _ _ Hd Hx). right; eauto.
+    - reflexivity. }
+  destruct (same_run H a w d Hag) as [Htr HE]. split; [exact Htr|]. split; [exact HE|].
+  constructor; rewrite Htr.
+  - intros i Hi. pose proof (durge_in _ _ _ _ _ _ _ _ Hd Hi) as Hle. rewrite HD in Hle. lia.
+  - intros d' Hd'. apply (IH d'); [|eapply durge_q; eassumption].
+    pose proof (tr_calls prog rank Hrank NF H _ _ _ Hd'). lia.
+  - intros x Hx Hu. assert (k = 0); [|lia]. apply (durge_untr _ _ _ _ _ _ _ _ Hd Hx Hu).
 Qed.
 
 (* ---------------------------------------------------------------- marking a memo verified now *)
@@ -54,37 +100,43 @@ Lemma revalidate_ok H D s q m :
   agree_on (envat H (m_verified m)) (envat H (cur s)) (tr H (m_verified m) q) ->
   (forall i, In (RIn i) (tr H (m_verified m) q) -> D (cur s) i = D (m_verified m) i) ->
   durge H D (cur s) (m_dur m) q ->
+  (* what was flattened away is covered from now on as well *)
+  (m_untracked m = false ->
+   forall d, In (RQ d) (tr H (m_verified m) q) -> ~ In (EQ d) (m_edges m) ->
+     good H D s (m_edges m) (cur s) d) ->
+  (m_dur m = 0 -> forall d md, In (EQ d) (m_edges m) -> d_memo s d = Some md -> cur s <= m_verified md) ->
   (forall d md, clos H (cur s) q d -> d <> q -> d_memo s d = Some md ->
      E H (cur s) d = E H (m_verified md) d /\ m_dur m <= m_dur md) ->
   let m' := reverify m (cur s) in
-  DInv H D (store s q m') /\ dext s (store s q m') /\ E H (cur s) q = E H (m_verified m) q.
+  DInv H D (store s q m') /\ dext H D s (store s q m') /\ E H (cur s) q = E H (m_verified m) q.
 Proof.
-  intros HI Hm Hag HDin Hdg Hclos m'.
-  pose proof (inv_memo _ _ _ _ _ HI q m Hm) as Hok.
-  destruct (trace_determined (prog q) _ _ Hag) as [Htr Hrun].
-  assert (HE : E H (cur s) q = E H (m_verified m) q).
-  { rewrite !(E_unfold prog rank Hrank NF Hbound). exact Hrun. }
-  assert (Htr' : tr H (cur s) q = tr H (m_verified m) q) by exact Htr.
-  pose proof (mo_order _ _ _ _ _ _ _ Hok) as (Ho1 & Ho2 & Ho3).
-  assert (Hfin : DInv H D (store s q m') /\ dext s (store s q m')).
-  { apply (DInv_store prog NF H D s q m' HI); [reflexivity | | |].
-    - destruct Hok as [a b c d e f g h i j].
+  intros HI Hm Hag HDin Hdg Hgood Hsync Hclos m'.
+  pose proof (inv_memo _ _ _ _ _ _ HI q m Hm) as Hok.
+  destruct (same_run H _ _ q Hag) as [Htr' HE].
+  pose proof (mo_order _ _ _ _ _ _ _ _ Hok) as (Ho1 & Ho2 & Ho3).
+  assert (Hobs : forall g w k, obs_ok H D s g w k -> clos H w g q -> obs_pre H D s w q m' ->
+             E H w q = E H (cur s) q /\ k <= m_dur m').
+  { intros g w k Hog Hcl Hpre.
+    destruct (ob_obs _ _ _ _ _ _ _ _ Hog q m Hcl Hm) as [A B]; [exact Hpre|].
+    split; [rewrite A; symmetry; exact HE | exact B]. }
+  assert (Hall : forall g w k, obs_ok H D s g w k -> obs_ok H D (store s q m') g w k).
+  { intros g w k Ho. apply obs_store; [reflexivity | exact Ho|]. intros Hcl Hp. apply (Hobs g w k Ho Hcl Hp). }
+  assert (Hfin : DInv H D (store s q m') /\ dext H D s (store s q m')).
+  { apply (DInv_store prog NF fm H D s q m' HI); [reflexivity | | exact Hobs |].
+    - destruct Hok as [a b c d e f g h i j k].
       constructor; cbn [m' reverify m_val m_verified m_changed m_dur m_untracked m_edges];
         rewrite ?cur_store, ?Htr'; auto.
-      + pose proof (inv_cur _ _ _ _ _ HI). lia.
+      + pose proof (inv_cur _ _ _ _ _ _ HI). lia.
       + intros x Hx. rewrite HE. apply b; exact Hx.
-      + intros i0 Hi0. destruct (c i0 Hi0) as [A | A]; [left; exact A | right].
-        rewrite (HDin i0 Hi0). exact A.
-      + intros d0 Hd0. destruct (d d0 Hd0) as [A | A]; [left; exact A | right].
-        apply (never_now H D s (m_verified m) d0 HI Ho1 Ho3 A).
+      + intros Hu0 d0 Hd0 Hn. apply (good_mono prog NF fm H D s); [apply N.le_refl | exact Hall | apply Hgood; assumption].
       + intros d0 md Hd0 Hmd _. unfold store in Hmd; cbn in Hmd. unfold upd in Hmd.
         destruct (key_eqb_spec q d0) as [<- | Hne].
         * injection Hmd as <-. split; [reflexivity | cbn; lia].
         * apply (Hclos d0 md Hd0); [congruence | exact Hmd].
-    - intros g mg Hg Hne Hcl Hpre.
-      pose proof (inv_memo _ _ _ _ _ HI g mg Hg) as Hokg.
-      destruct (mo_obs _ _ _ _ _ _ _ Hokg q m Hcl Hm) as [A B]; [exact Hpre|].
-      split; [rewrite A; symmetry; exact HE | exact B].
+      + intros Hz d0 md Hd0 Hmd. unfold store in Hmd; cbn in Hmd. unfold upd in Hmd.
+        destruct (key_eqb_spec q d0) as [<- | Hne].
+        * exfalso. pose proof (reach_rank prog rank Hrank q q (f q Hd0)). lia.
+        * apply (Hsync Hz d0 md Hd0 Hmd).
     - intros m0 Hm0 Hv0. rewrite Hm in Hm0. injection Hm0 as <-.
       split; [|cbn; lia]. intros _. unfold m'. rewrite <- Hv0. symmetry. apply reverify_same. }
   destruct Hfin as [A B]. split; [exact A|]. split; [exact B | exact HE].
@@ -95,25 +147,27 @@ Lemma shortcut_ok H D s q m :
   DInv H D s -> d_memo s q = Some m ->
   lcs s (m_dur m) <= m_verified m ->
   let m' := reverify m (cur s) in
-  DInv H D (store s q m') /\ dext s (store s q m') /\ E H (cur s) q = E H (m_verified m) q.
+  DInv H D (store s q m') /\ dext H D s (store s q m') /\ E H (cur s) q = E H (m_verified m) q.
 Proof.
   intros HI Hm Hlc.
-  pose proof (inv_memo _ _ _ _ _ HI q m Hm) as Hok.
-  pose proof (mo_order _ _ _ _ _ _ _ Hok) as (Ho1 & Ho2 & Ho3).
+  pose proof (inv_memo _ _ _ _ _ _ HI q m Hm) as Hok.
+  pose proof (mo_order _ _ _ _ _ _ _ _ Hok) as (Ho1 & Ho2 & Ho3).
   destruct (N.eq_dec (m_verified m) (cur s)) as [Heq | Hne].
   - (* already verified now: nothing moves *)
     apply (revalidate_ok H D s q m HI Hm); rewrite <- ?Heq.
     + intros x _. reflexivity.
     + intros i _. reflexivity.
-    + apply (mo_durge _ _ _ _ _ _ _ Hok).
+    + apply (mo_durge _ _ _ _ _ _ _ _ Hok).
+    + apply (mo_q _ _ _ _ _ _ _ _ Hok).
+    + apply (mo_sync _ _ _ _ _ _ _ _ Hok).
     + intros d md Hd Hdq Hmd.
-      apply (mo_obs _ _ _ _ _ _ _ Hok d md Hd Hmd). left.
-      pose proof (mo_order _ _ _ _ _ _ _ (inv_memo _ _ _ _ _ HI d md Hmd)) as (_ & A & B). lia.
+      apply (mo_obs _ _ _ _ _ _ _ _ Hok d md Hd Hmd). left.
+      pose proof (mo_order _ _ _ _ _ _ _ _ (inv_memo _ _ _ _ _ _ HI d md Hmd)) as (_ & A & B). lia.
   - assert (Hk : 1 <= m_dur m).
     { destruct (N.eq_dec (m_dur m) 0) as [H0 | H0]; [|lia].
       rewrite H0 in Hlc. unfold lcs in Hlc. rewrite lc_zero in Hlc. unfold cur in *. lia. }
-    pose proof (stable_now prog NF H D s (m_dur m) (m_verified m) HI Hlc) as Hw.
-    pose proof (mo_durge _ _ _ _ _ _ _ Hok) as Hdg.
+    pose proof (stable_now prog NF fm H D s (m_dur m) (m_verified m) HI Hlc) as Hw.
+    pose proof (mo_durge _ _ _ _ _ _ _ _ Hok) as Hdg.
     assert (Hst : forall d, durge H D (m_verified m) (m_dur m) d ->
               tr H (cur s) d = tr H (m_verified m) d /\ E H (cur s) d = E H (m_verified m) d /\
               durge H D (cur s) (m_dur m) d).
@@ -129,10 +183,15 @@ Proof.
       * reflexivity.
     + intros i Hi. apply (Hw i); [apply (durge_in _ _ _ _ _ _ _ _ Hdg Hi) | lia | lia].
     + apply (Hst q Hdg).
+    + intros _ d Hd Hn. destruct (mo_flat _ _ _ _ _ _ _ _ Hok) as [Hf | Hdir].
+      * apply (good_never prog NF fm H D s _ _ d (m_verified m) (m_dur m) Hf Hk Ho3).
+        apply (durge_q _ _ _ _ _ _ _ _ Hdg Hd).
+      * exfalso. apply Hn. apply Hdir. exact Hd.
+    + intros Hz. lia.
     + intros d md Hd Hdq Hmd.
       apply (clos_stable prog rank Hrank NF Hbound H D (m_dur m) (m_verified m) (cur s) q (cur s) Hk Hw Hdg Ho3 (N.le_refl _)) in Hd.
       pose proof (durge_clos _ _ _ _ _ _ _ _ Hdg Hd) as Hdd.
-      destruct (mo_obs _ _ _ _ _ _ _ Hok d md Hd Hmd) as [A B];
+      destruct (mo_obs _ _ _ _ _ _ _ _ Hok d md Hd Hmd) as [A B];
         [right; exists (m_dur m); split; assumption|].
       split; [|exact B]. rewrite <- A. apply (Hst d Hdd).
 Qed.
@@ -175,26 +234,25 @@ Qed.
 
 (* what an observer g (or the query's own memo verified now) is owed about the frame's
    durability, when the new run reads what g saw *)
-Lemma frame_dur_lb H D s q fr g mg :
+Lemma frame_dur_lb H D s q fr g w k :
   DInv H D s -> covers s (tr H (cur s) q) fr ->
-  d_memo s g = Some mg -> clos H (m_verified mg) g q ->
-  tr H (cur s) q = tr H (m_verified mg) q ->
-  (forall i, In (RIn i) (tr H (cur s) q) -> D (cur s) i = D (m_verified mg) i) ->
+  obs_ok H D s g w k -> clos H w g q ->
+  tr H (cur s) q = tr H w q ->
+  (forall i, In (RIn i) (tr H (cur s) q) -> D (cur s) i = D w i) ->
   (forall d md, In (RQ d) (tr H (cur s) q) -> d_memo s d = Some md ->
-                obs_pre H D s (m_verified mg) d md) ->
-  m_dur mg <= fr_dur fr.
+                obs_pre H D s w d md) ->
+  k <= fr_dur fr.
 Proof.
-  intros HI Hcv Hg Hcl Htr HDi Hpre.
-  pose proof (inv_memo _ _ _ _ _ HI g mg Hg) as Hokg.
-  pose proof (durge_clos _ _ _ _ _ _ _ _ (mo_durge _ _ _ _ _ _ _ Hokg) Hcl) as Hdq.
+  intros HI Hcv Hog Hcl Htr HDi Hpre.
+  pose proof (durge_clos _ _ _ _ _ _ _ _ (ob_durge _ _ _ _ _ _ _ _ Hog) Hcl) as Hdq.
   apply (cv_lb _ _ _ Hcv).
-  - apply (mo_dur3 _ _ _ _ _ _ _ Hokg).
+  - apply (ob_dur3 _ _ _ _ _ _ _ _ Hog).
   - intros i Hi.
-    rewrite <- (inv_dur _ _ _ _ _ HI i (cur s)); [|apply (inv_in_le _ _ _ _ _ HI) | lia].
+    rewrite <- (inv_dur _ _ _ _ _ _ HI i (cur s)); [|apply (inv_in_le _ _ _ _ _ _ HI) | lia].
     rewrite (HDi i Hi). rewrite Htr in Hi. apply (durge_in _ _ _ _ _ _ _ _ Hdq Hi).
   - intros d Hd md Hmd. pose proof Hd as Hd'. rewrite Htr in Hd'.
     pose proof (clos_right _ _ _ _ _ _ _ Hcl Hd') as Hcd.
-    apply (mo_obs _ _ _ _ _ _ _ Hokg d md Hcd Hmd). apply Hpre; assumption.
+    apply (ob_obs _ _ _ _ _ _ _ _ Hog d md Hcd Hmd). apply Hpre; assumption.
   - intros x Hx Hu. rewrite Htr in Hx. apply (durge_untr _ _ _ _ _ _ _ _ Hdq Hx Hu).
 Qed.
 
@@ -211,16 +269,16 @@ Lemma fresh_store_ok H D s q fr v ch (old : option memo) :
    exists o ov, old = Some o /\ m_val o = Some ov /\ ov = v /\ ch = m_changed o /\
                 m_dur o <= fr_dur fr) ->
   let m' := fresh_memo v (cur s) ch fr in
-  DInv H D (store s q m') /\ dext s (store s q m').
+  DInv H D (store s q m') /\ dext H D s (store s q m').
 Proof.
   intros HI Hcv Hv Hold Hnv Hch m'.
   assert (Hch_le : ch <= cur s).
   { destruct Hch as [-> | (o & ov & Ho & _ & _ & -> & _)].
     - apply (cv_le _ _ _ Hcv).
-    - subst old. pose proof (mo_order _ _ _ _ _ _ _ (inv_memo _ _ _ _ _ HI q o Ho)). lia. }
-  assert (Hcur1 : 1 <= cur s) by apply (inv_cur _ _ _ _ _ HI).
+    - subst old. pose proof (mo_order _ _ _ _ _ _ _ _ (inv_memo _ _ _ _ _ _ HI q o Ho)). lia. }
+  assert (Hcur1 : 1 <= cur s) by apply (inv_cur _ _ _ _ _ _ HI).
   assert (HDcur : forall i, D (cur s) i = f_dur (d_in s i)).
-  { intros i. apply (inv_dur _ _ _ _ _ HI); [apply (inv_in_le _ _ _ _ _ HI) | lia]. }
+  { intros i. apply (inv_dur _ _ _ _ _ _ HI); [apply (inv_in_le _ _ _ _ _ _ HI) | lia]. }
   (* callees of the new run: verified now *)
   assert (Hcallee : forall d, In (RQ d) (tr H (cur s) q) ->
             exists md, d_memo s d = Some md /\ m_verified md = cur s /\
@@ -228,23 +286,24 @@ Proof.
                        durge H D (cur s) (m_dur md) d).
   { intros d Hd. destruct (cv_q _ _ _ Hcv d Hd) as (md & Hmd & Hvd & _ & Hcd & Hdd & _).
     exists md. conj; auto. rewrite <- Hvd.
-    apply (mo_durge _ _ _ _ _ _ _ (inv_memo _ _ _ _ _ HI d md Hmd)). }
+    apply (mo_durge _ _ _ _ _ _ _ _ (inv_memo _ _ _ _ _ _ HI d md Hmd)). }
   assert (Hdg : durge H D (cur s) (fr_dur fr) q).
   { constructor.
     - intros i Hi. rewrite HDcur. apply (cv_in _ _ _ Hcv i Hi).
     - intros d Hd. destruct (Hcallee d Hd) as (md & _ & _ & _ & Hle & Hdd).
       eapply durge_mono; [exact Hle | exact Hdd].
     - intros x Hx Hu. apply (cv_cell _ _ _ Hcv x Hx Hu). }
-  apply (DInv_store prog NF H D s q m' HI); [reflexivity | | |].
+  apply (DInv_store prog NF fm H D s q m' HI); [reflexivity | | |].
   - (* the new memo is ok *)
     constructor; cbn [m' fresh_memo m_val m_verified m_changed m_dur m_untracked m_edges]; rewrite ?cur_store.
     + lia.
     + intros x Hx. injection Hx as <-. exact Hv.
-    + intros i Hi. left. apply (cv_in _ _ _ Hcv i Hi).
-    + intros d Hd. left. destruct (cv_q _ _ _ Hcv d Hd) as (md & _ & _ & _ & _ & _ & Hin). exact Hin.
+    + intros i Hi. apply (cv_in _ _ _ Hcv i Hi).
+    + intros _ d Hd Hn. exfalso. apply Hn.
+      destruct (cv_q _ _ _ Hcv d Hd) as (md & _ & _ & _ & _ & _ & Hin). exact Hin.
     + intros x Hx Hu. apply (cv_cell _ _ _ Hcv x Hx Hu).
-    + intros d Hd. apply (cv_edges_q _ _ _ Hcv d Hd).
-    + apply (cv_untr _ _ _ Hcv).
+    + intros d Hd. apply reach_one. apply (calls_of_trace _ _ _ (cv_edges_q _ _ _ Hcv d Hd)).
+    + right. intros d Hd. destruct (cv_q _ _ _ Hcv d Hd) as (md & _ & _ & _ & _ & _ & Hin). exact Hin.
     + exact Hdg.
     + apply (cv_dur3 _ _ _ Hcv).
     + intros d md Hd Hmd _. unfold store in Hmd; cbn in Hmd. unfold upd in Hmd.
@@ -256,144 +315,319 @@ Proof.
         destruct (Hcallee d1 Hin1) as (md1 & Hmd1 & Hvd1 & _ & Hle1 & _).
         destruct (obs_of_callee H D s d1 md1 d md HI Hmd1 Hvd1 Hd1 Hmd) as (HEd & Hdd).
         split; [exact HEd | lia].
+    + intros _ d md Hd Hmd. unfold store in Hmd; cbn in Hmd. unfold upd in Hmd.
+      pose proof (cv_edges_q _ _ _ Hcv d Hd) as Hrd.
+      destruct (key_eqb_spec q d) as [<- | Hne].
+      * pose proof (tr_calls prog rank Hrank NF H _ _ _ Hrd). lia.
+      * destruct (cv_q _ _ _ Hcv d Hrd) as (md0 & Hmd0 & Hvd0 & _).
+        rewrite Hmd in Hmd0. injection Hmd0 as <-. lia.
   - (* observers *)
-    intros g mg Hg Hne Hcl Hpre.
-    pose proof (inv_memo _ _ _ _ _ HI g mg Hg) as Hokg.
-    pose proof (mo_order _ _ _ _ _ _ _ Hokg) as (Hg1 & Hg2 & Hg3).
-    pose proof (durge_clos _ _ _ _ _ _ _ _ (mo_durge _ _ _ _ _ _ _ Hokg) Hcl) as Hdgq.
+    intros g w k Hog Hcl Hpre.
+    pose proof (ob_order _ _ _ _ _ _ _ _ Hog) as (Hg1 & Hg3).
+    pose proof (durge_clos _ _ _ _ _ _ _ _ (ob_durge _ _ _ _ _ _ _ _ Hog) Hcl) as Hdgq.
     assert (Hmdle : forall d md, d_memo s d = Some md -> m_changed md <= cur s).
-    { intros d md Hmd. pose proof (mo_order _ _ _ _ _ _ _ (inv_memo _ _ _ _ _ HI d md Hmd)). lia. }
-    destruct (N.eq_dec (m_verified mg) (cur s)) as [Heq | Hnow].
+    { intros d md Hmd. pose proof (mo_order _ _ _ _ _ _ _ _ (inv_memo _ _ _ _ _ _ HI d md Hmd)). lia. }
+    destruct (N.eq_dec (w) (cur s)) as [Heq | Hnow].
     { (* g is verified now *)
       split; [rewrite Heq; reflexivity|].
-      apply (frame_dur_lb H D s q fr g mg HI Hcv Hg Hcl); rewrite ?Heq; auto.
+      apply (frame_dur_lb H D s q fr g w k HI Hcv Hog Hcl); rewrite ?Heq; auto.
       intros d md _ Hmd. left. apply (Hmdle d md Hmd). }
-    assert (Hlt : m_verified mg < cur s) by lia.
+    assert (Hlt : w < cur s) by lia.
     (* stable since v_g at some level *)
-    assert (Hstable : forall k, durge H D (m_verified mg) k q -> lcs s k <= m_verified mg ->
-              E H (m_verified mg) q = E H (cur s) q /\ m_dur mg <= m_dur m').
-    { intros k Hdk Hlck.
-      assert (Hk : 1 <= k).
-      { destruct (N.eq_dec k 0) as [-> | H0]; [|lia].
+    assert (Hstable : forall k0, durge H D w k0 q -> lcs s k0 <= w ->
+              E H w q = E H (cur s) q /\ k <= m_dur m').
+    { intros k0 Hdk Hlck.
+      assert (Hk : 1 <= k0).
+      { destruct (N.eq_dec k0 0) as [-> | H0]; [|lia].
         unfold lcs in Hlck. rewrite lc_zero in Hlck. unfold cur in *. lia. }
-      pose proof (stable_now prog NF H D s k (m_verified mg) HI Hlck) as Hw.
-      destruct (durge_stable prog rank Hrank NF Hbound H D k (m_verified mg) (cur s) q (cur s) Hk Hw Hdk Hg3 (N.le_refl _))
+      pose proof (stable_now prog NF fm H D s k0 w HI Hlck) as Hw.
+      destruct (durge_stable prog rank Hrank NF Hbound H D k0 w (cur s) q (cur s) Hk Hw Hdk Hg3 (N.le_refl _))
         as (Htr & HE & _).
       split; [symmetry; exact HE|].
-      apply (frame_dur_lb H D s q fr g mg HI Hcv Hg Hcl Htr).
+      apply (frame_dur_lb H D s q fr g w k HI Hcv Hog Hcl Htr).
       - intros i Hi. rewrite Htr in Hi.
         apply (Hw i); [apply (durge_in _ _ _ _ _ _ _ _ Hdk Hi) | lia | lia].
-      - intros d md Hd _. rewrite Htr in Hd. right. exists k.
+      - intros d md Hd _. rewrite Htr in Hd. right. exists k0.
         split; [apply (durge_q _ _ _ _ _ _ _ _ Hdk Hd) | exact Hlck]. }
-    destruct Hpre as [Hle | (k & Hdk & Hlck)]; [|apply (Hstable k Hdk Hlck)].
+    destruct Hpre as [Hle | (k0 & Hdk & Hlck)]; [|apply (Hstable k0 Hdk Hlck)].
     cbn [m' fresh_memo m_changed] in Hle.
     destruct Hch as [-> | (o & ov & Ho & Hov & Heq & -> & Hdo)].
     + (* not backdated: every read of the new run has a stamp <= v_g *)
-      assert (Hsame_ans : forall x, In x (tr H (cur s) q) -> In x (tr H (m_verified mg) q) ->
-                answer (envat H (cur s)) x = answer (envat H (m_verified mg)) x).
+      assert (Hsame_ans : forall x, In x (tr H (cur s) q) -> In x (tr H (w) q) ->
+                answer (envat H (cur s)) x = answer (envat H (w)) x).
       { intros x Hx Hx'. destruct x as [i | d | c |]; cbn.
         - destruct (cv_in _ _ _ Hcv i Hx) as (_ & Hst & _).
-          rewrite (inv_in _ _ _ _ _ HI i (cur s)); [|apply (inv_in_le _ _ _ _ _ HI) | lia].
-          rewrite (inv_in _ _ _ _ _ HI i (m_verified mg)); [reflexivity | lia | lia].
+          rewrite (inv_in _ _ _ _ _ _ HI i (cur s)); [|apply (inv_in_le _ _ _ _ _ _ HI) | lia].
+          rewrite (inv_in _ _ _ _ _ _ HI i (w)); [reflexivity | lia | lia].
         - destruct (cv_q _ _ _ Hcv d Hx) as (md & Hmd & Hvd & _ & Hcd & _).
           pose proof (clos_right _ _ _ _ _ _ _ Hcl Hx') as Hcd'.
-          destruct (mo_obs _ _ _ _ _ _ _ Hokg d md Hcd' Hmd) as [A _]; [left; lia|].
+          destruct (ob_obs _ _ _ _ _ _ _ _ Hog d md Hcd' Hmd) as [A _]; [left; lia|].
           rewrite A, Hvd. reflexivity.
         - destruct (cv_cell _ _ _ Hcv (RCell c) Hx) as (_ & Hcc & _); [right; eauto | lia].
         - reflexivity. }
-      assert (Hag : agree_on (envat H (cur s)) (envat H (m_verified mg)) (tr H (cur s) q)).
-      { destruct (first_changed_is_read_again (prog q) (envat H (cur s)) (envat H (m_verified mg)))
+      assert (Hag : agree_on (envat H (cur s)) (envat H (w)) (tr H (cur s) q)).
+      { destruct (first_changed_is_read_again (prog q) (envat H (cur s)) (envat H (w)))
           as [Hag | (pre & x & post & Ht & _ & Hnea & post' & Ht')]; [exact Hag|].
         exfalso. apply Hnea. apply Hsame_ans.
         - unfold tr, Inv.tr. rewrite Ht. apply in_or_app; right; left; reflexivity.
         - unfold tr, Inv.tr. rewrite Ht'. apply in_or_app; right; left; reflexivity. }
       destruct (trace_determined _ _ _ Hag) as [Htr Hrun].
-      assert (Htr' : tr H (cur s) q = tr H (m_verified mg) q) by (symmetry; exact Htr).
+      assert (Htr' : tr H (cur s) q = tr H (w) q) by (symmetry; exact Htr).
       split; [rewrite !(E_unfold prog rank Hrank NF Hbound); exact Hrun|].
-      apply (frame_dur_lb H D s q fr g mg HI Hcv Hg Hcl Htr').
+      apply (frame_dur_lb H D s q fr g w k HI Hcv Hog Hcl Htr').
       * intros i Hi. destruct (cv_in _ _ _ Hcv i Hi) as (_ & Hst & _).
-        rewrite HDcur. symmetry. apply (inv_dur _ _ _ _ _ HI); lia.
+        rewrite HDcur. symmetry. apply (inv_dur _ _ _ _ _ _ HI); lia.
       * intros d md Hd Hmd. destruct (cv_q _ _ _ Hcv d Hd) as (md0 & Hmd0 & _ & _ & Hcd & _).
         rewrite Hmd in Hmd0. injection Hmd0 as <-. left. lia.
     + (* backdated: the value equals the old one, the durability did not decrease *)
       subst old.
-      destruct (mo_obs _ _ _ _ _ _ _ Hokg q o Hcl Ho) as [A B]; [left; exact Hle|].
+      destruct (ob_obs _ _ _ _ _ _ _ _ Hog q o Hcl Ho) as [A B]; [left; exact Hle|].
       split; [|cbn; lia].
-      rewrite A. rewrite <- (mo_val _ _ _ _ _ _ _ (inv_memo _ _ _ _ _ HI q o Ho) ov Hov).
+      rewrite A. rewrite <- (mo_val _ _ _ _ _ _ _ _ (inv_memo _ _ _ _ _ _ HI q o Ho) ov Hov).
       rewrite Heq. exact Hv.
   - (* the query's own memo, if it was verified now (and evicted) *)
     intros m0 Hm0 Hv0.
     split; [intros Hx; exfalso; apply Hx; apply Hnv; [congruence | exact Hv0]|].
     cbn [m' fresh_memo m_dur].
-    apply (frame_dur_lb H D s q fr q m0 HI Hcv Hm0); rewrite ?Hv0; auto.
+    apply (frame_dur_lb H D s q fr q (m_verified m0) (m_dur m0) HI Hcv
+             (obs_of_memo prog NF fm H D s q m0 (inv_memo _ _ _ _ _ _ HI q m0 Hm0))); rewrite ?Hv0; auto.
     + apply clos_refl.
     + intros d md _ Hmd. left.
-      pose proof (mo_order _ _ _ _ _ _ _ (inv_memo _ _ _ _ _ HI d md Hmd)). lia.
+      pose proof (mo_order _ _ _ _ _ _ _ _ (inv_memo _ _ _ _ _ _ HI d md Hmd)). lia.
 Qed.
 
 (* ---------------------------------------------------------------- the edge walk succeeded *)
-(* Every recorded edge is unchanged since the memo was verified: the memo may be marked
-   verified now.  (Reads without an edge are of level NEVER_CHANGE: they cannot move.) *)
-Lemma deep_ok H D s q m :
-  DInv H D s -> d_memo s q = Some m -> m_untracked m = false ->
-  (forall e, In e (m_edges m) ->
-     match e with
-     | EIn i => f_changed (d_in s i) <= m_verified m
-     | EQ d => E H (m_verified m) d = E H (cur s) d /\ durge H D (cur s) (m_dur m) d /\
-               exists md, d_memo s d = Some md /\ m_verified md = cur s /\ m_dur m <= m_dur md
-     end) ->
-  let m' := reverify m (cur s) in
-  DInv H D (store s q m') /\ dext s (store s q m') /\ E H (cur s) q = E H (m_verified m) q.
+Lemma edge_in_dec (e : edge) (L : list edge) : {In e L} + {~ In e L}.
+Proof. apply in_dec. repeat decide equality. Qed.
+
+(* What the walk (from state s0 to state s) established about an edge of q's memo m:
+   an input field has an old stamp; a function has a memo that is verified now, every observer
+   of the state the walk started in, at a revision >= verified_at, that has it in its closure
+   saw the value it has now, and if q itself has it in its closure its recorded durability is
+   above the memo's. *)
+Definition leaf_ok H D (s0 s : db) (q : qkey) (m : memo) (e : edge) : Prop :=
+  match e with
+  | EIn i => f_changed (d_in s i) <= m_verified m
+  | EQ d =>
+      (exists md, d_memo s d = Some md /\ m_verified md = cur s) /\
+      (forall g w k, obs_ok H D s0 g w k -> m_verified m <= w -> clos H w g d ->
+                     E H w d = E H (cur s) d) /\
+      (clos H (m_verified m) q d ->
+         durge H D (cur s) (m_dur m) d /\ exists md, d_memo s d = Some md /\ m_dur m <= m_dur md)
+  end.
+
+Section Walked.
+Variables (H : hist) (D : dhist) (s0 s : db) (q : qkey) (m : memo).
+Hypothesis HI0 : DInv H D s0.
+Hypothesis HI : DInv H D s.
+Hypothesis Hext : dext H D s0 s.
+Hypothesis Hm0 : d_memo s0 q = Some m.
+Hypothesis Hm : d_memo s q = Some m.
+Hypothesis Hu : m_untracked m = false.
+Hypothesis Hleaf : forall e, In e (m_edges m) -> leaf_ok H D s0 s q m e.
+Let v := m_verified m.
+Let L := m_edges m.
+Let c := cur s.
+
+Let Hcur : cur s0 = c.
+Proof. symmetry. apply (dext_cur _ _ _ _ _ _ Hext). Qed.
+
+Let in_same i w : In (EIn i) L -> v <= w -> w <= c ->
+  sn_in (H w) i = sn_in (H c) i /\ D w i = D c i.
 Proof.
-  intros HI Hm Hu Hc.
-  pose proof (inv_memo _ _ _ _ _ HI q m Hm) as Hok.
-  pose proof (mo_order _ _ _ _ _ _ _ Hok) as (Ho1 & Ho2 & Ho3).
-  pose proof (mo_durge _ _ _ _ _ _ _ Hok) as Hdg.
-  pose proof (stable_never prog NF H D s (m_verified m) HI Ho1) as Hw3.
-  assert (Hin_same : forall i, In (RIn i) (tr H (m_verified m) q) ->
-            sn_in (H (cur s)) i = sn_in (H (m_verified m)) i /\ D (cur s) i = D (m_verified m) i).
-  { intros i Hi. destruct (mo_reads_in _ _ _ _ _ _ _ Hok i Hi) as [He | H3].
-    - pose proof (Hc _ He) as Hle. cbn in Hle. split.
-      + rewrite (inv_in _ _ _ _ _ HI i (m_verified m) Hle Ho3).
-        apply (inv_in _ _ _ _ _ HI i (cur s)); [apply (inv_in_le _ _ _ _ _ HI) | lia].
-      + rewrite (inv_dur _ _ _ _ _ HI i (m_verified m) Hle Ho3).
-        apply (inv_dur _ _ _ _ _ HI i (cur s)); [apply (inv_in_le _ _ _ _ _ HI) | lia].
-    - apply (Hw3 i); [lia | exact Ho3 | lia]. }
-  assert (Hag : agree_on (envat H (m_verified m)) (envat H (cur s)) (tr H (m_verified m) q)).
-  { intros x Hx. destruct x as [i | d | c |]; cbn.
-    - symmetry. apply (Hin_same i Hx).
-    - destruct (mo_reads_q _ _ _ _ _ _ _ Hok d Hx) as [He | H3].
-      + exact (proj1 (Hc _ He)).
-      + symmetry. apply (never_now H D s (m_verified m) d HI Ho1 Ho3 H3).
-    - rewrite (mo_reads_cell _ _ _ _ _ _ _ Hok (RCell c) Hx) in Hu; [discriminate | right; eauto].
-    - reflexivity. }
-  destruct (trace_determined (prog q) _ _ Hag) as [Htr _].
-  assert (Htr' : tr H (cur s) q = tr H (m_verified m) q) by exact Htr.
-  apply (revalidate_ok H D s q m HI Hm Hag).
-  - intros i Hi. apply (Hin_same i Hi).
-  - constructor; rewrite Htr'.
-    + intros i Hi. rewrite (proj2 (Hin_same i Hi)). apply (durge_in _ _ _ _ _ _ _ _ Hdg Hi).
-    + intros d Hd. destruct (mo_reads_q _ _ _ _ _ _ _ Hok d Hd) as [He | H3].
-      * exact (proj1 (proj2 (Hc _ He))).
-      * eapply durge_mono; [apply (mo_dur3 _ _ _ _ _ _ _ Hok)|].
-        apply (never_now H D s (m_verified m) d HI Ho1 Ho3 H3).
+  intros Hi Hv Hw. pose proof (Hleaf _ Hi) as Hle. cbn in Hle. fold v in Hle.
+  pose proof (inv_in_le _ _ _ _ _ _ HI i) as Hic. fold c in Hic.
+  split.
+  - rewrite (inv_in _ _ _ _ _ _ HI i w); [|lia | exact Hw].
+    symmetry. apply (inv_in _ _ _ _ _ _ HI i c); [exact Hic | apply N.le_refl].
+  - rewrite (inv_dur _ _ _ _ _ _ HI i w); [|lia | exact Hw].
+    symmetry. apply (inv_dur _ _ _ _ _ _ HI i c); [exact Hic | apply N.le_refl].
+Qed.
+
+(* a dependency that was flattened away looks now as it looked to every observer *)
+Definition seen_as_now (d : qkey) : Prop :=
+  forall g w k, obs_ok H D s0 g w k -> v <= w -> clos H w g d ->
+    tr H w d = tr H c d /\ E H w d = E H c d.
+
+Lemma good_seen : forall n d, (rank d < n)%nat -> good H D s0 L v d -> seen_as_now d.
+Proof.
+  induction n as [|n IH]; intros d Hn Hg; [inversion Hn|].
+  inversion Hg as [d0 a k Hf Hk Ha Hd | d0 rho k Ho Hv Hun Hi Hq]; subst d0.
+  - intros g w k' _ _ _.
+    pose proof (inv_lowD _ _ _ _ _ _ HI Hf) as HD0.
+    destruct (low_never H D a k HD0 Hk (S (rank d)) d (le_n _) Hd w) as (A1 & A2 & _).
+    destruct (low_never H D a k HD0 Hk (S (rank d)) d (le_n _) Hd c) as (B1 & B2 & _).
+    split; congruence.
+  - pose proof (ob_order _ _ _ _ _ _ _ _ Ho) as (Hr1 & Hr2). rewrite Hcur in Hr2.
+    assert (Hchild : forall d' g w k', In (RQ d') (tr H rho d) -> obs_ok H D s0 g w k' -> v <= w ->
+               clos H w g d' -> E H w d' = E H c d').
+    { intros d' g w k' Hd' Hog Hvw Hcl.
+      pose proof (tr_calls prog rank Hrank NF H _ _ _ Hd') as Hrk.
+      destruct (edge_in_dec (EQ d') L) as [HinL | HnL].
+      - destruct (Hleaf _ HinL) as (_ & A & _). apply (A g w k' Hog Hvw Hcl).
+      - apply (IH d' ltac:(lia) (Hq d' Hd' HnL) g w k' Hog Hvw Hcl). }
+    (* its own revision *)
+    assert (Hown : tr H c d = tr H rho d /\ E H c d = E H rho d).
+    { apply same_run. intros x Hx. destruct x as [i | d' | cc |]; cbn.
+      - apply (in_same i rho (Hi i Hx) Hv Hr2).
+      - apply (Hchild d' d rho k Hx Ho Hv). apply clos_one. exact Hx.
+      - exfalso. apply (Hun _ Hx). right; eauto.
+      - reflexivity. }
+    destruct Hown as [Htr HE].
+    intros g w k' Hog Hvw Hcl.
+    pose proof (ob_order _ _ _ _ _ _ _ _ Hog) as (Hw1 & Hw2). rewrite Hcur in Hw2.
+    apply same_run_common. intros x Hx Hx'. rewrite Htr in Hx.
+    destruct x as [i | d' | cc |]; cbn.
+    + symmetry. apply (in_same i w (Hi i Hx) Hvw Hw2).
+    + symmetry. apply (Hchild d' g w k' Hx Hog Hvw). eapply clos_right; eassumption.
+    + exfalso. apply (Hun _ Hx). right; eauto.
+    + reflexivity.
+Qed.
+
+Let Hok0 : dmemo_ok H D s0 q m := inv_memo _ _ _ _ _ _ HI0 q m Hm0.
+Let Hobq : obs_ok H D s0 q v (m_dur m) := obs_of_memo prog NF fm H D s0 q m Hok0.
+
+Lemma walked_read d : In (RQ d) (tr H v q) -> E H v d = E H c d.
+Proof.
+  intros Hd. destruct (edge_in_dec (EQ d) L) as [HinL | HnL].
+  - destruct (Hleaf _ HinL) as (_ & A & _). apply (A q v (m_dur m) Hobq (N.le_refl _)).
+    apply clos_one. exact Hd.
+  - apply (good_seen (S (rank d)) d (le_n _) (mo_q _ _ _ _ _ _ _ _ Hok0 Hu d Hd HnL)
+             q v (m_dur m) Hobq (N.le_refl _)).
+    apply clos_one. exact Hd.
+Qed.
+
+Lemma walked_agree : agree_on (envat H v) (envat H c) (tr H v q).
+Proof.
+  pose proof (mo_order _ _ _ _ _ _ _ _ Hok0) as (Ho1 & Ho2 & Ho3). fold v in Ho1, Ho3. rewrite Hcur in Ho3.
+  intros x Hx. destruct x as [i | d | cc |]; cbn.
+  - apply (in_same i v (mo_in _ _ _ _ _ _ _ _ Hok0 i Hx) (N.le_refl _) Ho3).
+  - apply walked_read. exact Hx.
+  - rewrite (mo_reads_cell _ _ _ _ _ _ _ _ Hok0 (RCell cc) Hx) in Hu; [discriminate | right; eauto].
+  - reflexivity.
+Qed.
+
+Lemma walked_tr : tr H c q = tr H v q /\ E H c q = E H v q.
+Proof. apply same_run. exact walked_agree. Qed.
+
+(* what is below a flattened dependency: every memo there has the value of now *)
+Lemma below_good : forall n x, (rank x < n)%nat -> good H D s0 L v x -> clos H v q x ->
+  forall d md, clos H c x d -> d_memo s d = Some md -> E H c d = E H (m_verified md) d.
+Proof.
+  induction n as [|n IH]; intros x Hn Hg Hqx d md Hcl Hmd; [inversion Hn|].
+  pose proof (mo_order _ _ _ _ _ _ _ _ (inv_memo _ _ _ _ _ _ HI d md Hmd)) as (Hmo1 & Hmo2 & Hmo3).
+  fold c in Hmo3.
+  inversion Hg as [d0 a k Hf Hk Ha Hd | d0 rho k Ho Hv Hun Hi Hq]; subst d0.
+  - (* no input below x *)
+    pose proof (inv_lowD _ _ _ _ _ _ HI Hf) as HD0.
+    destruct (low_never H D a k HD0 Hk (S (rank x)) x (le_n _) Hd c) as (_ & _ & H3).
+    pose proof (durge_clos _ _ _ _ _ _ _ _ H3 Hcl) as H3d.
+    assert (H13 : 1 <= 3) by lia.
+    destruct (low_never H D c 3 HD0 H13 (S (rank d)) d (le_n _) H3d (m_verified md)) as (_ & A & _).
+    symmetry. exact A.
+  - pose proof (good_seen (S (rank x)) x (le_n _) Hg) as Hseen.
+    destruct (Hseen q v (m_dur m) Hobq (N.le_refl _) Hqx) as [Htrv HEv].
+    destruct (Hseen x rho k Ho Hv (clos_refl _ _ _ _ _)) as [Htrr HEr].
+    inversion Hcl as [f | f d1 e Hin Hd1]; subst.
+    + (* the dependency's own memo *)
+      destruct (N.eq_dec (m_verified md) c) as [-> | Hnc]; [reflexivity|].
+      assert (Hmd0 : d_memo s0 d = Some md).
+      { apply (ext_old _ _ _ _ _ _ Hext d md Hmd). rewrite Hcur. lia. }
+      pose proof (inv_memo _ _ _ _ _ _ HI0 d md Hmd0) as Hokd.
+      destruct (N.le_gt_cases (m_verified md) v) as [Hle | Hgt].
+      * destruct (mo_obs _ _ _ _ _ _ _ _ Hok0 d md Hqx Hmd0) as [A _]; [left; fold v; lia|].
+        fold v in A. rewrite <- A. symmetry. exact HEv.
+      * destruct (Hseen d (m_verified md) (m_dur md) (obs_of_memo prog NF fm H D s0 d md Hokd))
+          as [_ A]; [lia | apply clos_refl|]. symmetry. exact A.
+    + rewrite <- Htrr in Hin.
+      destruct (edge_in_dec (EQ d1) L) as [HinL | HnL].
+      * destruct (Hleaf _ HinL) as ((md1 & Hmd1 & Hv1) & _ & _).
+        apply (obs_of_callee H D s d1 md1 d md HI Hmd1 Hv1 Hd1 Hmd).
+      * pose proof (tr_calls prog rank Hrank NF H _ _ _ Hin) as Hrk.
+        apply (IH d1 ltac:(lia) (Hq d1 Hin HnL)); [|exact Hd1 | exact Hmd].
+        eapply clos_right; [exact Hqx|]. rewrite Htrv, <- Htrr. exact Hin.
+Qed.
+
+(* the flattened dependencies are covered from now on: they are observers at the current revision *)
+Lemma reroot : forall n x, (rank x < n)%nat -> good H D s0 L v x -> clos H v q x ->
+  good H D s L c x.
+Proof.
+  induction n as [|n IH]; intros x Hn Hg Hqx; [inversion Hn|].
+  inversion Hg as [d0 a k Hf Hk Ha Hd | d0 rho k Ho Hv Hun Hi Hq]; subst d0.
+  - apply (good_never prog NF fm H D s L c x a k Hf Hk); [rewrite Hcur in Ha; exact Ha | exact Hd].
+  - pose proof (good_seen (S (rank x)) x (le_n _) Hg) as Hseen.
+    destruct (Hseen q v (m_dur m) Hobq (N.le_refl _) Hqx) as [Htrv HEv].
+    destruct (Hseen x rho k Ho Hv (clos_refl _ _ _ _ _)) as [Htrr HEr].
+    apply (good_exp prog NF fm H D s L c x c 0).
+    + constructor.
+      * split; [apply (inv_cur _ _ _ _ _ _ HI) | apply N.le_refl].
+      * apply (durge_zero prog rank Hrank NF H D).
+      * lia.
+      * intros d md Hcl Hmd _. split; [|lia].
+        apply (below_good (S (rank x)) x (le_n _) Hg Hqx d md Hcl Hmd).
+    + apply N.le_refl.
+    + intros y Hy. rewrite <- Htrr in Hy. apply (Hun y Hy).
+    + intros i Hi0. rewrite <- Htrr in Hi0. apply (Hi i Hi0).
+    + intros d' Hd' HnL. rewrite <- Htrr in Hd'.
+      pose proof (tr_calls prog rank Hrank NF H _ _ _ Hd') as Hrk.
+      apply (IH d' ltac:(lia) (Hq d' Hd' HnL)).
+      eapply clos_right; [exact Hqx|]. rewrite Htrv, <- Htrr. exact Hd'.
+Qed.
+
+End Walked.
+
+(* Every recorded edge is unchanged since the memo was verified: the memo may be marked
+   verified now.  The memo's durability is LOW, or its edges are its direct reads. *)
+Lemma deep_ok H D s0 s q m :
+  DInv H D s0 -> DInv H D s -> dext H D s0 s ->
+  d_memo s0 q = Some m -> d_memo s q = Some m -> m_untracked m = false ->
+  (m_dur m = 0 \/ forall d, In (RQ d) (tr H (m_verified m) q) -> In (EQ d) (m_edges m)) ->
+  (forall e, In e (m_edges m) -> leaf_ok H D s0 s q m e) ->
+  let m' := reverify m (cur s) in
+  DInv H D (store s q m') /\ dext H D s (store s q m') /\ E H (cur s) q = E H (m_verified m) q.
+Proof.
+  intros HI0 HI Hext Hm0 Hm Hu Hflat Hleaf.
+  pose proof (inv_memo _ _ _ _ _ _ HI0 q m Hm0) as Hok0.
+  pose proof (mo_order _ _ _ _ _ _ _ _ Hok0) as (Ho1 & Ho2 & Ho3).
+  pose proof (mo_durge _ _ _ _ _ _ _ _ Hok0) as Hdg.
+  assert (Hcur : cur s0 = cur s) by (symmetry; apply (dext_cur _ _ _ _ _ _ Hext)).
+  rewrite Hcur in Ho3.
+  pose proof (walked_agree H D s0 s q m HI0 HI Hext Hm0 Hu Hleaf) as Hag.
+  destruct (walked_tr H D s0 s q m HI0 HI Hext Hm0 Hu Hleaf) as [Htr HE].
+  assert (Hinc : forall i, In (RIn i) (tr H (m_verified m) q) -> D (cur s) i = D (m_verified m) i).
+  { intros i Hi. pose proof (Hleaf _ (mo_in _ _ _ _ _ _ _ _ Hok0 i Hi)) as Hle. cbn in Hle.
+    rewrite (inv_dur _ _ _ _ _ _ HI i (m_verified m) Hle Ho3).
+    apply (inv_dur _ _ _ _ _ _ HI i (cur s)); [apply (inv_in_le _ _ _ _ _ _ HI) | lia]. }
+  apply (revalidate_ok H D s q m HI Hm Hag Hinc).
+  - (* the level now *)
+    constructor; rewrite Htr.
+    + intros i Hi. rewrite (Hinc i Hi). apply (durge_in _ _ _ _ _ _ _ _ Hdg Hi).
+    + intros d Hd. destruct Hflat as [Hz | Hdir].
+      * rewrite Hz. apply (durge_zero prog rank Hrank NF H D).
+      * destruct (Hleaf _ (Hdir d Hd)) as (_ & _ & C). apply C. apply clos_one. exact Hd.
     + intros x Hx Hux. apply (durge_untr _ _ _ _ _ _ _ _ Hdg Hx Hux).
-  - intros d md Hd Hdq Hmd.
-    assert (Hstep : exists d1, In (RQ d1) (tr H (cur s) q) /\ clos H (cur s) d1 d).
-    { destruct Hd as [f | f d1 e Hin Hd1]; [contradiction | exists d1; split; assumption]. }
-    destruct Hstep as (d1 & Hin1 & Hd1). rewrite Htr' in Hin1.
-    destruct (mo_reads_q _ _ _ _ _ _ _ Hok d1 Hin1) as [He | H3].
-    + destruct (Hc _ He) as (_ & _ & md1 & Hmd1 & Hvd1 & Hle1).
-      destruct (obs_of_callee H D s d1 md1 d md HI Hmd1 Hvd1 Hd1 Hmd) as (HEd & Hdd).
-      split; [exact HEd | lia].
-    + assert (H31 : (1 <= 3)) by lia.
-      apply (clos_stable prog rank Hrank NF Hbound H D 3 (m_verified m) (cur s) d1 (cur s) H31 Hw3 H3 Ho3 (N.le_refl _)) in Hd1.
-      pose proof (durge_clos _ _ _ _ _ _ _ _ H3 Hd1) as H3d.
-      assert (Hcq : clos H (m_verified m) q d) by (eapply clos_step; eassumption).
-      destruct (mo_obs _ _ _ _ _ _ _ Hok d md Hcq Hmd) as [A B].
-      { right. exists 3. split; [exact H3d|]. unfold lcs. rewrite lc_never by lia. exact Ho1. }
-      split; [|exact B]. rewrite <- A.
-      apply (never_now H D s (m_verified m) d HI Ho1 Ho3 H3d).
+  - (* the cover from now on *)
+    intros _ d Hd HnL. destruct Hflat as [Hz | Hdir]; [|exfalso; apply HnL; apply Hdir; exact Hd].
+    apply (reroot H D s0 s q m HI0 HI Hext Hm0 Hleaf (S (rank d)) d (le_n _)
+             (mo_q _ _ _ _ _ _ _ _ Hok0 Hu d Hd HnL)).
+    apply clos_one. exact Hd.
+  - intros _ d md Hd Hmd. destruct (Hleaf _ Hd) as ((md' & Hmd' & Hv') & _).
+    rewrite Hmd in Hmd'. injection Hmd' as <-. lia.
+  - (* everything below *)
+    intros d md Hcl Hdq Hmd.
+    inversion Hcl as [f | f d1 e Hin Hd1]; subst; [contradiction|].
+    rewrite Htr in Hin.
+    destruct (edge_in_dec (EQ d1) (m_edges m)) as [HinL | HnL].
+    + destruct (Hleaf _ HinL) as ((md1 & Hmd1 & Hv1) & _ & C).
+      destruct (obs_of_callee H D s d1 md1 d md HI Hmd1 Hv1 Hd1 Hmd) as (HEd & Hdd).
+      split; [exact HEd|].
+      destruct Hflat as [Hz | Hdir]; [lia|].
+      destruct (C (clos_one _ _ _ _ _ _ Hin)) as (_ & md1' & Hmd1' & Hle).
+      rewrite Hmd1 in Hmd1'. injection Hmd1' as <-. lia.
+    + destruct Hflat as [Hz | Hdir]; [|exfalso; apply HnL; apply Hdir; exact Hin].
+      split; [|lia].
+      apply (below_good H D s0 s q m HI0 HI Hext Hm0 Hleaf (S (rank d1)) d1 (le_n _)
+               (mo_q _ _ _ _ _ _ _ _ Hok0 Hu d1 Hin HnL) (clos_one _ _ _ _ _ _ Hin) d md Hd1 Hmd).
 Qed.
 
 End Sem.
